@@ -200,7 +200,7 @@ def c09_oracle(full, io, b):
                 cls = "authority-normalises-to-empty"
             else:
                 hostinfo = auth.rpartition("@")[2]
-                if ("[" in hostinfo or "]" in hostinfo) and not re.match(r"^\[[^\[\]]*\](:[^\[\]]*)?$", hostinfo):
+                if ("[" in hostinfo or "]" in hostinfo) and not re.match(r"^\[[^\[\]]*\](:[^\[\]]*)?\Z", hostinfo):
                     cls = "malformed-brackets"
             out.append({"what": f"{name}: {pretty_out(a)} on the original, {pretty_out(c)} on its pickled/copied twin ({text})", "class": cls,
                         "n": v.n_of(h, name), "also": [v.n_of(src, name)], "input": inp})
